@@ -4,6 +4,7 @@ package c19
 import (
 	"fmt"
 	"reflect"
+	"regexp"
 	"sort"
 	"strconv"
 	"sync"
@@ -434,9 +435,19 @@ func runBubble(p Plan) (v hk.Verdict) {
 		case "list":
 			s := sites[op.Site%3]
 
-			if l, err := s.st.List(ctx, kind); err == nil {
+			// plain, ID-filtered and label-filtered lists (the filtered paths build their results separately)
+			var lopts []state.ListOption
+
+			switch op.Arg % 3 {
+			case 1:
+				lopts = append(lopts, state.WithIDQuery(resource.IDRegexpMatch(regexp.MustCompile("^[a-z]"))))
+			case 2:
+				lopts = append(lopts, state.WithLabelQuery(resource.LabelExists("k1")), state.WithLabelQuery(resource.LabelExists("k2")))
+			}
+
+			if l, err := s.st.List(ctx, kind, lopts...); err == nil {
 				for _, it := range l.Items {
-					add(it, "returned by "+s.name+" List", it.Metadata().ID()+"@"+it.Metadata().Version().String())
+					add(it, "returned by "+s.name+" List"+[]string{"", " (ID query)", " (label query)"}[op.Arg%3], it.Metadata().ID()+"@"+it.Metadata().Version().String())
 				}
 			}
 		case "mutate":
